@@ -76,6 +76,20 @@ Theorem C16_rw_excl : forall s ts,
 Proof. rewrite bp_src_false. exact rw_excl. Qed.
 Print Assumptions C16_rw_excl.
 
+(* Lock balance: a thread about to execute a Reader method's deferred RUnlock
+   holds a read lock (every path through load() re-acquires it), so that RUnlock
+   never releases another lookup's hold and never hits an unlocked mutex. *)
+Theorem C16_lock_balance : forall s ts x,
+  reachable bp_src s ts -> In (L_RUnlockEnd x) ts -> 1 <= readers s /\ writer s = false.
+Proof. rewrite bp_src_false. exact lock_balance. Qed.
+Print Assumptions C16_lock_balance.
+
+(* Tie T for it: in the regenerated event list of load(), every return is reached
+   with the read lock held or after the deferred Unlock/RLock has been registered. *)
+Theorem C16_load_returns_with_read_lock : load_lock_balance = true.
+Proof. exact load_lock_balance_holds. Qed.
+Print Assumptions C16_load_returns_with_read_lock.
+
 (* The metric counters: whenever the write lock is free,
    loadCount - loadFailedCount = unloadCount - unloadFailedCount + [reader loaded]. *)
 Theorem C16_counters : forall s ts,
